@@ -171,6 +171,20 @@ ChainFreezeViol(e) ==
   IN {<<"C16_ChainFreezeStopsServices", [svc |-> s.svc, status |-> s.st]>> :
          s \in {x \in ToSet(e.svc) : x.st \in {"available", "freezing"} /\ x.chainOf \in down}}
 
+\* the router's output, on the live path (PutBlockAndMeta to subscribed piers) and on the query path
+\* (GetInterchainTxWrappers from the ledger), against RouteOf over the block's logged delivery metadata (which DelivViol,
+\* TmetaViol and the group formulas tie to the specification's own delivery sets)
+RouteViol(e) ==
+  IF "route" \notin DOMAIN e THEN {}
+  ELSE (IF e.routeErr = "" THEN {} ELSE {<<"C02_RoutedAsListed", [pier |-> "", path |-> "error", got |-> e.routeErr]>>})
+       \cup UNION { LET want == RouteOf(r.pier, e.counter, e.tmeta, e.mmeta) IN
+              UNION { (IF x[2].msgs = 1 /\ x[2].wrappers = 1 /\ x[2].h = <<e.h>> /\ x[2].txs = want.txs THEN {}
+                       ELSE {<<"C02_RoutedAsListed", [pier |-> r.pier, path |-> x[1], got |-> [msgs |-> x[2].msgs, h |-> x[2].h, txs |-> x[2].txs], want |-> want.txs]>>})
+                      \cup (IF x[2].tmo = want.tmo THEN {} ELSE {<<"C06_RoutedTimeouts", [pier |-> r.pier, path |-> x[1], got |-> x[2].tmo, want |-> want.tmo]>>})
+                      \cup (IF x[2].multi = want.multi THEN {} ELSE {<<"C05_RoutedMulti", [pier |-> r.pier, path |-> x[1], got |-> x[2].multi, want |-> want.multi]>>})
+                      : x \in {<<"live", r.live>>, <<"query", r.query>>} }
+              : r \in ToSet(e.route) }
+
 BlockStep(e) ==
   LET en == [env EXCEPT !.h = e.h]
       r0 == RunTxs(g, en, e.txs)
@@ -189,7 +203,7 @@ BlockStep(e) ==
                 \cup (IF Len(e.txs) > 0 /\ (\A i \in 1..Len(e.txs) : e.txs[i].k = "invoke" /\ e.txs[i].cls = "surface" /\ e.txs[i].role # "govadmin")
                           /\ (CtrViol(g2, e.counters, en.unordered) \cup StatusViol(r.g, g2, e.h, e.status)) # {}
                       THEN {<<"C17_NoForeignDelete", {[c |-> e.txs[i].c, m |-> e.txs[i].m] : i \in 1..Len(e.txs)}>>} ELSE {})
-                \cup DelivViol(en, e.txs, e.counter, r.nt) \cup GroupViol(g2, e.groups) \cup ChainFreezeViol(e)
+                \cup DelivViol(en, e.txs, e.counter, r.nt) \cup GroupViol(g2, e.groups) \cup ChainFreezeViol(e) \cup RouteViol(e)
                 \* C05: every accepted child of a declared one-to-many transaction belongs to the stored group
                 \cup {<<"C05_GroupSpansHubs", [gid |-> e.txs[i].gid, child |-> e.txs[i].id]>> :
                         i \in {j \in 1..Len(e.txs) : e.txs[j].k = "ibtp" /\ e.txs[j].typ = "REQ" /\ e.txs[j].status = "SUCCESS" /\ e.txs[j].gid # ""
